@@ -12,6 +12,7 @@ from adeu.ingest import extract_text_from_stream
 from adeu.markup import apply_edits_to_markdown as _apply_edits_to_markdown
 from adeu.models import DocumentEdit, ReviewAction
 from adeu.redline.engine import RedlineEngine
+from adeu.utils.files import write_atomically
 
 # --- LOGGING CONFIGURATION ---
 # MCP communicates over stdio.
@@ -38,8 +39,7 @@ def _read_file_bytes(path: str) -> BytesIO:
 
 
 def _save_stream(stream: BytesIO, path: str):
-    with open(path, "wb") as f:
-        f.write(stream.getvalue())
+    write_atomically(path, stream.getvalue())
 
 
 @mcp.tool()
@@ -309,8 +309,7 @@ def apply_edits_as_markdown(
             output_path = str(p.parent / f"{p.stem}_markup.md")
 
         # 4. Save as Markdown file
-        with open(output_path, "w", encoding="utf-8") as f:
-            f.write(result)
+        write_atomically(output_path, result.encode("utf-8"))
 
         return f"Saved CriticMarkup to: {output_path}"
 
